@@ -27,7 +27,12 @@ from sim.core.fsseam import FsSeam
 
 ERRNOS = [errno.ENOENT, errno.EACCES, errno.EIO, errno.EISDIR]
 NAMES = ['a.txt', 'b.bin', 'empty', 'noext', 'sp ace.txt', 'dotted.name.tar.gz', 'ünï.txt',
-         '.hidden', '..double', '...', 'index.html', 'data.json', 'img.png', 'UPPER.TXT', 'x']
+         '.hidden', '..double', '...', 'index.html', 'data.json', 'img.png', 'UPPER.TXT', 'x',
+         # legal file names that str.isprintable()/isalnum()-style "sanity checks" reject: no-break and ideographic space,
+         # zero-width joiner (emoji sequences), soft hyphen, direction mark, tab, DEL; and URL-significant characters
+         'nb\u00a0sp.txt', 'wide\u3000space.txt', 'fam\U0001f468\u200d\U0001f469.txt', 'soft\u00adhyphen.txt', 'rtl\u200fmark.txt',
+         'tab\there.txt', 'del\x7f.txt', 'plus+and%25.txt', 'hash#tag.txt', 'semi;colon=eq.txt', 'back\\slash.txt', 'amp&ersand.txt',
+         'CJK\u4e2d\u6587.txt', 'combining-e\u0301.txt']
 DIRS = ['', '', 'sub', 'sub/deep', 'other', '.dotdir', 'sub/..weird']
 MAX_CALLS = 16
 SECRETS = {'above': 'SECRET-ABOVE-4f1c9a', 'beside': 'SECRET-BESIDE-77e2b0', 'sibling': 'SECRET-SIBLING-a91d33'}
